@@ -229,7 +229,7 @@ class Run:
 
     def generate(self, name, consts):
         """one exhaustive TLC run of the generator; returns (tlc result, DIFF list)"""
-        c = {"MaxVisits": 1, "MaxInject": 1, "MaxPos": 0, "Slice": 0, "NSlices": 1, "Styles": '{"fresh"}'}
+        c = {"MaxVisits": 1, "MaxInject": 1, "MaxPos": 0, "MaxSteps": 99, "Slice": 0, "NSlices": 1, "Styles": '{"fresh"}'}
         c.update(consts)
         r = self.ctx.run_tlc("ConfigLangMC", "ConfigLangMC.cfg", workers=8, timeout=2400, files=self.gfiles(), constants=c)
         diffs = list(core.tagged_lines(r["out"], "DIFF"))
@@ -316,6 +316,8 @@ class Run:
             return
         if c["emptyrule"] and not c["inj"]:
             self.count(f, "empty-rule")
+            if c["npos"] > 1:
+                self.count(f, "empty-rule-at-%d-of-%d" % (c["pos"], c["npos"]))
             self.count_kind(f, c["steps"][-1]["ldr"], "valid")
         elif c["inj"]:
             free = all((self.kl[f]["nodes"].get(i["ldr"]) or {"kind": "free"})["kind"] == "free" for i in r["inj"])
@@ -378,11 +380,15 @@ def run(ctx):
     # (A) TLC enumerates the documents; (B) the worker pushes each through the real loaders
     if quick:
         plans = [("base", {"MaxVisits": 1, "Styles": '{"fresh", "case"}'}),
+                 # an EMPTY rule first, in the middle and last among valid rules, in every rule list (a conversion loop that
+                 # lets a later valid rule wipe the error of an earlier empty one only shows when the empty rule is not last)
+                 ("empty-rule-positions", {"MaxVisits": 1, "MaxPos": 2, "MaxSteps": 2}),
                  ("deep-compiler", {"MaxVisits": 2, "Files": '{"compiler"}'}),
                  # members of the rule unions are cut into 12 classes by position; only classes 5, 9, 10, 11 contain members
                  # with recursive types (properties, add_option, add_factory, add_assignment): the seed picks one of them, the
                  # other members gain nothing from a second unrolling and are complete in "base"
-                 ("deep-veneers-slice", {"MaxVisits": 2, "Files": '{"veneers"}', "NSlices": 12, "Slice": [5, 9, 10, 11][ctx.seed % 4]})]
+                 ("deep-veneers-slice", {"MaxVisits": 2, "Files": '{"veneers"}', "NSlices": 12, "Slice": [5, 9, 10, 11][ctx.seed % 4],
+                                         "MaxSteps": 12})]   # walks of <= 12 mapping nodes (the longest has 15; thorough has no cap)
     else:
         plans = [("deep", {"MaxVisits": 2}),
                  ("deeper-compiler", {"MaxVisits": 3, "Files": '{"compiler"}'}),
@@ -508,6 +514,11 @@ def vacuity(run_, quick):
         if f != "pipeline":
             if c.get("empty-rule", 0) == 0:
                 out.append("%s/empty-rule never exercised" % f)
+            # one per rule list of the file (compiler: passes; veneers: builders, options) at each position
+            nlists = {"compiler": 1, "veneers": 2}[f]
+            for p in (0, 1, 2):
+                if c.get("empty-rule-at-%d-of-3" % p, 0) < nlists:
+                    out.append("%s/empty rule at position %d of 3 not exercised in every rule list" % (f, p))
         if c.get("inject-free-form", 0) == 0:
             out.append("%s/inject-free-form never exercised" % f)
         if not quick:
